@@ -184,3 +184,112 @@ Proof.
   - destruct i; reflexivity.
   - rewrite merge_nth, IH. reflexivity.
 Qed.
+
+(* ---- the per-test map (TestCoverage.Tests) ---- *)
+Lemma aggregate_t_files runs : forall acc,
+  snd (fold_left aggregate_t runs acc) = fold_left aggregate (map snd runs) (snd acc).
+Proof. induction runs as [|r runs IH]; intros acc; cbn [fold_left map]; [reflexivity|]. rewrite IH. reflexivity. Qed.
+
+Lemma aggregate_t_tests runs : forall acc,
+  fst (fold_left aggregate_t runs acc) = fold_left (fun m r => tset (fst r) (snd r) m) runs (fst acc).
+Proof. induction runs as [|r runs IH]; intros acc; cbn [fold_left]; [reflexivity|]. rewrite IH. reflexivity. Qed.
+
+(* the overall Files of the labelled aggregation are those of the plain one: labels do not matter *)
+Theorem aggregate_all_t_files runs : snd (aggregate_all_t runs) = aggregate_all (map snd runs).
+Proof. unfold aggregate_all_t, aggregate_all. rewrite aggregate_t_files. reflexivity. Qed.
+
+Lemma tlookup_tset_same l v m : tlookup l (tset l v m) = Some v.
+Proof.
+  induction m as [|[k w] m IH]; cbn [tset tlookup].
+  - rewrite str_eqb_refl. reflexivity.
+  - destruct (str_eqb l k) eqn:E; cbn [tlookup]; rewrite E; auto.
+Qed.
+
+Lemma tlookup_tset_other l k v m : l <> k -> tlookup l (tset k v m) = tlookup l m.
+Proof.
+  intros Hne. induction m as [|[k' w] m IH]; cbn [tset tlookup].
+  - apply str_eqb_neq in Hne. rewrite Hne. reflexivity.
+  - destruct (str_eqb k k') eqn:E; cbn [tlookup].
+    + apply str_eqb_eq in E; subst k'. apply str_eqb_neq in Hne. rewrite Hne. reflexivity.
+    + destruct (str_eqb l k'); auto.
+Qed.
+
+Fixpoint assoc (l : str) (runs : list trun) : option files :=
+  match runs with
+  | [] => None
+  | (k, v) :: r => if str_eqb l k then Some v else assoc l r
+  end.
+
+Lemma assoc_none l runs : ~ In l (map fst runs) -> assoc l runs = None.
+Proof.
+  induction runs as [|[k v] runs IH]; cbn [assoc map fst]; [reflexivity|]. intros Hn.
+  destruct (str_eqb_spec l k) as [->|Hne]; [exfalso; apply Hn; left; reflexivity|].
+  apply IH. intros Hin; apply Hn; right; exact Hin.
+Qed.
+
+Lemma assoc_in l v runs : NoDup (map fst runs) -> In (l, v) runs -> assoc l runs = Some v.
+Proof.
+  induction runs as [|[k w] runs IH]; cbn [assoc map fst]; [intros _ []|].
+  intros Hnd Hin. inversion Hnd as [|? ? Hnotin Hnd']; subst.
+  destruct Hin as [Heq|Hin].
+  - inversion Heq; subst. rewrite str_eqb_refl. reflexivity.
+  - destruct (str_eqb_spec l k) as [->|Hne]; [|auto].
+    exfalso. apply Hnotin. change k with (fst (k, v)). apply in_map. exact Hin.
+Qed.
+
+Lemma assoc_some_in l v runs : assoc l runs = Some v -> In (l, v) runs.
+Proof.
+  induction runs as [|[k w] runs IH]; cbn [assoc]; [discriminate|].
+  destruct (str_eqb_spec l k) as [->|Hne]; intros H.
+  - inversion H; subst. left; reflexivity.
+  - right; auto.
+Qed.
+
+Lemma fold_tset_lookup l runs : NoDup (map fst runs) -> forall m,
+  tlookup l (fold_left (fun m r => tset (fst r) (snd r) m) runs m)
+  = match assoc l runs with Some v => Some v | None => tlookup l m end.
+Proof.
+  induction runs as [|[k v] runs IH]; cbn [fold_left assoc map fst snd]; intros Hnd m; [reflexivity|].
+  inversion Hnd as [|? ? Hnotin Hnd']; subst. rewrite IH by exact Hnd'.
+  destruct (str_eqb_spec l k) as [->|Hne].
+  - rewrite (assoc_none k runs Hnotin). apply tlookup_tset_same.
+  - destruct (assoc l runs); [reflexivity|]. apply tlookup_tset_other. exact Hne.
+Qed.
+
+Lemma assoc_perm l runs runs' :
+  NoDup (map fst runs) -> Permutation runs runs' -> assoc l runs = assoc l runs'.
+Proof.
+  intros Hnd Hp.
+  assert (Hnd' : NoDup (map fst runs')).
+  { eapply Permutation_NoDup; [apply Permutation_map; exact Hp | exact Hnd]. }
+  destruct (assoc l runs) as [v|] eqn:E.
+  - symmetry. apply assoc_in; [exact Hnd'|]. eapply Permutation_in; [exact Hp|]. apply assoc_some_in. exact E.
+  - destruct (assoc l runs') as [v|] eqn:E'; [|reflexivity].
+    apply assoc_some_in in E'. apply (Permutation_in _ (Permutation_sym Hp)) in E'.
+    rewrite (assoc_in l v runs Hnd E') in E. discriminate.
+Qed.
+
+(* With one coverage object per test label (the code's "tests are independent" assumption) the per-test
+   map does not depend on completion order either, and holds exactly what each test reported. *)
+Theorem tests_order_free runs runs' l :
+  NoDup (map fst runs) -> Permutation runs runs' ->
+  tlookup l (fst (aggregate_all_t runs)) = tlookup l (fst (aggregate_all_t runs')).
+Proof.
+  intros Hnd Hp. unfold aggregate_all_t. rewrite !aggregate_t_tests. cbn [fst].
+  rewrite !fold_tset_lookup; [|eapply Permutation_NoDup; [apply Permutation_map; exact Hp | exact Hnd]|exact Hnd].
+  rewrite (assoc_perm l runs runs' Hnd Hp). reflexivity.
+Qed.
+
+Theorem tests_exact runs l v :
+  NoDup (map fst runs) -> In (l, v) runs -> tlookup l (fst (aggregate_all_t runs)) = Some v.
+Proof.
+  intros Hnd Hin. unfold aggregate_all_t. rewrite aggregate_t_tests. cbn [fst].
+  rewrite fold_tset_lookup by exact Hnd. rewrite (assoc_in l v runs Hnd Hin). reflexivity.
+Qed.
+
+(* Files: labelled runs in any order, repeated labels included (retries of one test) *)
+Theorem files_order_free_t runs runs' f :
+  Permutation runs runs' -> lookup f (snd (aggregate_all_t runs)) = lookup f (snd (aggregate_all_t runs')).
+Proof.
+  intros Hp. rewrite !aggregate_all_t_files. apply aggregate_order_free. right. apply Permutation_map. exact Hp.
+Qed.
